@@ -66,6 +66,10 @@ pub fn always_filename() -> &'static RedoPath {
 /// fid offset for "log locks".
 pub const LOG_LOCK_MAGIC: i64 = 0x10000000;
 
+/// Offset of the lock held while a target's script runs and its result is
+/// recorded (the target's own lock is also held by somebody who only checks it).
+pub(crate) const BUILD_LOCK_MAGIC: i64 = 0x20000000;
+
 /// Connection to the state database.
 #[derive(Debug)]
 #[non_exhaustive]
@@ -229,6 +233,12 @@ impl ProcessState {
         )
         .map_err(RedoError::opaque_error)?;
         Ok(probe.l_type != libc::F_UNLCK as c_short)
+    }
+
+    /// Reports whether `fid`'s script is running right now (in any process),
+    /// or has finished without its result being recorded yet.
+    pub(crate) fn is_being_built(&self, fid: i64) -> Result<bool, RedoError> {
+        self.is_locked_now(fid + BUILD_LOCK_MAGIC)
     }
 
     #[inline]
